@@ -685,6 +685,28 @@ func init() {
 		}
 		return out
 	})
+	// unique.Make: the canonical handle of a value (runtime weak-pointer map in the real
+	// implementation). Canonical cells are kept per path; equality of the values is decided
+	// by the solver (it forks only if the values are symbolic).
+	reg("unique.Make", func(e *Engine, fr *frame, fn *ssa.Function, a []Value) Value {
+		type uniq struct {
+			v Value
+			p *Value
+		}
+		var list []uniq
+		if l, ok := e.kv["__unique"]; ok {
+			list = l.([]uniq)
+		}
+		for _, u := range list {
+			if e.Branch(e.deepEqual(fr, u.v, a[0], 0)) {
+				return Struct{u.p}
+			}
+		}
+		cell := copyVal(a[0])
+		list = append(list, uniq{copyVal(a[0]), &cell})
+		e.kv["__unique"] = list
+		return Struct{&cell}
+	})
 	reg("internal/abi.NoEscape", func(e *Engine, fr *frame, fn *ssa.Function, a []Value) Value { return a[0] })
 	reg("internal/abi.Escape", func(e *Engine, fr *frame, fn *ssa.Function, a []Value) Value { return a[0] })
 	reg("strings.(*Builder).copyCheck", func(e *Engine, fr *frame, fn *ssa.Function, a []Value) Value { return nil })
